@@ -83,14 +83,14 @@ class JournalFileBackend(BaseJournalBackend):
                     self._log_number_offset[log_number + 1] = (
                         self._log_number_offset[log_number] + byte_len
                     )
-                if log_number < log_number_from:
-                    continue
-
                 # Ensure that each line ends with line separators (\n, \r\n).
                 if not line.endswith(b"\n"):
                     last_decode_error = ValueError("Invalid log format.")
                     del self._log_number_offset[log_number + 1]
                     continue
+                if log_number < log_number_from:
+                    continue
+
                 try:
                     logs.append(json.loads(line))
                 except json.JSONDecodeError as err:
